@@ -101,19 +101,27 @@ def r2_shape(ctx):
     src_ok = bool(labels)
     for lab in labels:
         loopvar = next((txt(l.target) for l in full_loops), None)
+        # the sources of the labels: follow every local definition (a re-definition in terms of the earlier value, e.g.
+        # `index_values = pd.MultiIndex.from_tuples(index_values.apply(eval))`, is derived, not a source)
         defs = [lab]
         seen = set()
         leaves = []
+        all_defs = {**{k: list(v) for k, v in ex.defs.items()}}
+        for n_ in walk_no_nested(f.node):
+            if isinstance(n_, ast.Assign) and len(n_.targets) == 1 and isinstance(n_.targets[0], ast.Name):
+                all_defs.setdefault(n_.targets[0].id, [])
+                if n_.value not in all_defs[n_.targets[0].id]:
+                    all_defs[n_.targets[0].id].append(n_.value)
         while defs:
             d = defs.pop()
-            found_name = False
-            for n in ast.walk(d):
-                if isinstance(n, ast.Name) and n.id not in seen and n.id in ex.defs:
-                    seen.add(n.id)
-                    defs += ex.defs[n.id]
-                    found_name = True
-            if not found_name or f"{loopvar}.failure_cases" in txt(d):
+            local_refs = [n.id for n in ast.walk(d) if isinstance(n, ast.Name) and n.id in all_defs and n.id != loopvar]
+            if f"{loopvar}.failure_cases" in txt(d) or not local_refs:
                 leaves.append(d)
+                continue
+            for nm in local_refs:
+                if nm not in seen:
+                    seen.add(nm)
+                    defs += all_defs[nm]
         want = (f"{loopvar}.failure_cases['index']", f'{loopvar}.failure_cases["index"]')
         src_ok = src_ok and bool(leaves) and all(any(w in txt(d) for w in want) for d in leaves)
     ctx.ob("R2", f, "pandas: failing labels come from err.failure_cases['index']", src_ok, "index column of the failure cases" if src_ok else "labels taken from elsewhere")
